@@ -495,6 +495,13 @@ func classifyErrValue(v ssa.Value, at *ssa.BasicBlock, depth int) ReturnKind {
 			if al, ok := x.X.(*ssa.Alloc); ok {
 				return classifyLoad(x, al, at, depth)
 			}
+			if _, ok := x.X.(*ssa.Global); ok {
+				// package-level sentinel error (ErrNotFound, ...): non-nil by convention
+				if f := factsAt(v, at); f != RetUnknown {
+					return f
+				}
+				return RetFailure
+			}
 		}
 	case *ssa.Global:
 		return RetFailure
